@@ -1,7 +1,8 @@
 (* Pipelined/ProofsTop.v — assembly of the C16 theorems from the invariant lemmas (Props.v only restates them) *)
 From Verif Require Import Base.Lex Pipelined.Model Pipelined.ProofsBuf Pipelined.ProofsShape Pipelined.ProofsRead
   Pipelined.ProofsBatch Pipelined.ProofsOnce Pipelined.ProofsErr Pipelined.ProofsCommit Pipelined.ProofsBounds Pipelined.ProofsRange
-  Pipelined.ProofsDyn Pipelined.ProofsPrimary Pipelined.ProofsKeepAlive.
+  Pipelined.ProofsDyn Pipelined.ProofsPrimary Pipelined.ProofsKeepAlive Pipelined.ProofsExec.
+From Coq Require Import Permutation.
 
 Definition P0 := {| minkeys := 0; minsize := 0; forcesize := 0 |}.
 Definition v1 : value := [118].
@@ -170,6 +171,24 @@ Proof.
   intros s0 o g fb Hi Hp Hf Hne. unfold complete. rewrite Hi, Hp, Hf. cbn [is_nil andb].
   destruct fb as [|e t]; [congruence|]. cbn [is_nil negb andb closed pending store].
   rewrite !Bool.andb_false_r. cbn. rewrite Bool.orb_true_r. repeat split; reflexivity.
+Qed.
+
+Lemma C16_batch_refusal_fails_flush_proof : forall P ops arrivals,
+  let s := run P ops in
+  (process_err arrivals = None <-> forall r, In r arrivals -> r = None) /\
+  (forall c, process_err arrivals = Some c ->
+     In (Some c) arrivals /\ (c = 0 -> forall c', In (Some c') arrivals -> c' = 0)) /\
+  (forall b, Permutation arrivals b -> (process_err arrivals = None <-> process_err b = None)) /\
+  (forall r, inflight s = true -> In r arrivals -> refused r = true ->
+     let s' := complete_batches s arrivals in
+     closed s' = true /\ pending s' = Some false /\
+     forall ops' wo1 wo2, snd (commit_attempt P (run_from P s' ops') wo1 wo2) = false).
+Proof.
+  intros P ops arrivals s. split; [apply process_err_none|]. split; [intros c; apply process_err_some|].
+  split; [intros b; apply process_err_perm|].
+  intros r Hi Hin Hr s'. destruct (refused_batch_fails_flush s arrivals r Hi Hin Hr) as [A B]. split; [exact A|]. split; [exact B|].
+  intros ops' wo1 wo2. apply (failed_txn_stays_failed P s' ops' wo1 wo2); [|exact A].
+  unfold s', complete_batches. apply shape_complete, shape_run.
 Qed.
 
 Lemma C16_resolve_covers_prefix_refuted_proof :
